@@ -461,3 +461,41 @@ pub fn add_ufcs_edits(block: &syn::Block, src: &str, edits: &mut Vec<Edit>, rewr
     let mut v = AddUfcs { src, edits, rewrites };
     v.visit_block(block);
 }
+
+/// R11: in a `for` body, a top-level statement `if C { continue; }` followed by the statements S becomes
+/// `if C { } else { S }` (same control flow; the installed Verus rejects `continue` inside `for`)
+struct ContinueElse<'a> {
+    src: &'a str,
+    edits: &'a mut Vec<Edit>,
+    rewrites: &'a mut Vec<String>,
+}
+fn is_bare_continue_block(b: &syn::Block) -> bool {
+    if b.stmts.len() != 1 { return false; }
+    match &b.stmts[0] {
+        syn::Stmt::Expr(syn::Expr::Continue(c), _) => c.label.is_none(),
+        _ => false,
+    }
+}
+impl<'ast, 'a> Visit<'ast> for ContinueElse<'a> {
+    fn visit_expr_for_loop(&mut self, e: &'ast syn::ExprForLoop) {
+        let body_close = br(e.body.span()).1 - 1;
+        let n = e.body.stmts.len();
+        for (i, st) in e.body.stmts.iter().enumerate() {
+            if let syn::Stmt::Expr(syn::Expr::If(ife), _) = st {
+                if ife.else_branch.is_none() && is_bare_continue_block(&ife.then_branch) && i + 1 < n {
+                    let (bs, be) = br(ife.then_branch.span());
+                    let (_, ie) = br(st.span());
+                    self.edits.push(Edit { start: bs, end: be, text: "{ }".into(), kind: "R11 continue".into(), prio: 0 });
+                    self.edits.push(Edit { start: ie, end: ie, text: " else {".into(), kind: "R11 continue".into(), prio: -3 });
+                    self.edits.push(Edit { start: body_close, end: body_close, text: "} ".into(), kind: "R11 continue".into(), prio: 3 });
+                    self.rewrites.push(format!("R11 `{}` + rest of the for body -> `if .. {{ }} else {{ rest }}`", norm(&self.src[br(st.span()).0..ie]).chars().take(70).collect::<String>()));
+                }
+            }
+        }
+        syn::visit::visit_expr_for_loop(self, e);
+    }
+}
+pub fn continue_edits(block: &syn::Block, src: &str, edits: &mut Vec<Edit>, rewrites: &mut Vec<String>) {
+    let mut v = ContinueElse { src, edits, rewrites };
+    v.visit_block(block);
+}
